@@ -552,8 +552,25 @@ def run_type_assignment(
     for cell in result:
         for parent_level, child_level in zip(level_list[:-1], level_list[1:]):
             if cell[child_level]['avg_correlation'] is None:
+                if parent_level is None:
+                    # single node at the top level of the taxonomy;
+                    # there is no parent to inherit from (see below)
+                    continue
                 cell[child_level]['avg_correlation'] = \
                     cell[parent_level]['avg_correlation']
+
+        # Levels still lacking avg_correlation form a chain of trivial
+        # assignments starting at the top of the taxonomy. Fill them
+        # from the first level below at which a real choice was made
+        # (1.0 if no choice was made anywhere).
+        for parent_level, child_level in zip(hierarchy[-2::-1],
+                                             hierarchy[-1:0:-1]):
+            if cell[parent_level]['avg_correlation'] is None:
+                cell[parent_level]['avg_correlation'] = \
+                    cell[child_level]['avg_correlation']
+        for level in hierarchy:
+            if cell[level]['avg_correlation'] is None:
+                cell[level]['avg_correlation'] = 1.0
 
     # add aggregate_probability (the product of bootstrapping_probability)
     # across levels in the taxonomy
